@@ -347,6 +347,20 @@ static void family_struct(std::vector<hm::Scenario>& out, unsigned oracles, cons
     // cascading: interior root with 16 children, rightmost border full
     P("IFULL", {{mk(PUT, "136", 1)}, {mk(PUT, "0645", 2)}}, false);
     P("IFULL", {{mk(PUT, "136", 1)}, {mk(REMOVE, "064")}}, false);
+    // one thread empties a whole border node (8 or 7 removes) while another splits its neighbourhood: the only way the freshly
+    // created interior (layer) root drops to one child and is collapsed right after the split
+    auto bulk = [&](const std::string& prefix, int from, int to) {
+        std::vector<Op> v;
+        for (int i = from; i <= to; ++i) v.push_back(mk(REMOVE, prefix + ykc::k2(i)));
+        return v;
+    };
+    P("L1full", {{mk(PUT, ykc::P8() + "16", 1)}, bulk(ykc::P8(), 1, 8)}, true);
+    P("L1full", {{mk(PUT, ykc::P8() + "16", 1)}, bulk(ykc::P8(), 9, 15)}, false);
+    P("L1full", {{mk(PUT, ykc::P8() + "075", 1)}, bulk(ykc::P8(), 9, 15)}, false);
+    P("B15", {{mk(PUT, "16", 1)}, bulk("", 1, 8)}, true);
+    P("B15", {{mk(PUT, "16", 1)}, bulk("", 9, 15)}, false);
+    P("I2_8_15", {{mk(PUT, "24", 1)}, bulk("", 9, 16)}, false);
+    P("I2_8_15", {{mk(PUT, "24", 1)}, bulk("", 1, 8)}, false);
     for (auto& p : picks) {
         const ykc::Shape* sh = ykc::find_shape(shapes, p.shape);
         if (sh == nullptr) continue;
